@@ -546,4 +546,28 @@ Proof.
     replace (Z.of_nat d + 1 - 1) with (Z.of_nat d) by lia. apply Z.mod_small. lia.
 Qed.
 
+(* stated with the real prove: re-compressing the individual paths gives the batch opening *)
+Theorem from_paths_of_proves : forall indexes,
+  indexes <> [] -> zlen indexes <= 255 -> NoDup indexes -> (forall i, In i indexes -> 0 <= i < N) ->
+  exists p paths, mapM (mt_prove D t) indexes = Ok paths /\ mt_prove_batch D d0 t indexes = Ok p /\
+                  from_paths D d0 paths indexes = Ok p.
+Proof.
+  intros idx Hne Hlen ND Hr.
+  destruct (from_paths_of_proves_tree idx Hne Hlen ND Hr) as (p & Ep & Ef).
+  exists p, (map hpath idx). split; [|split; assumption].
+  apply mapM_map. intros i Hi. apply (mt_prove_spec D d0 merge t d WF Hd). apply Hr. assumption.
+Qed.
+
+(* from_into_roundtrip: decompress then re-compress an honest batch opening, any order of the positions *)
+Theorem from_into_roundtrip : forall indexes,
+  indexes <> [] -> zlen indexes <= 255 -> NoDup indexes -> (forall i, In i indexes -> 0 <= i < N) ->
+  exists p paths, mt_prove_batch D d0 t indexes = Ok p /\ into_paths D merge p indexes = Ok paths /\
+                  from_paths D d0 paths indexes = Ok p.
+Proof.
+  intros idx Hne Hlen ND Hr.
+  destruct (into_paths_spec_tree D D_eqb D_eqb_spec d0 merge t d WF Hd idx Hne Hlen ND Hr) as (p & Ep & Ei & _).
+  destruct (from_paths_of_proves_tree idx Hne Hlen ND Hr) as (p' & Ep' & Ef).
+  rewrite Ep in Ep'. injection Ep' as <-. exists p, (map hpath idx). auto.
+Qed.
+
 End FromTop.
